@@ -391,6 +391,17 @@ def stage_valgrind(prop, st, tier, seed0, known):
     return viol, cov
 
 
+def tsan_repo_frames(text, n=1):
+    """ThreadSanitizer frames look like '#2 func(args) /path/file.cpp:127 (module+0x...)' (no address, no ' in ')."""
+    fr = []
+    for m in re.finditer(r"#\d+ (.+?) (/[^\s()]+?):(\d+)(?::\d+)? \(", text):
+        path = m.group(2)
+        if "/repo/src/" in path or "/repo/include/" in path or "/repo/main.cpp" in path:
+            fr.append("%s %s" % (m.group(1).split("(")[0][-60:], os.path.basename(path)))
+            if len(fr) >= n: break
+    return fr
+
+
 def tsan_reports(text):
     out = []
     for blk in text.split("=================="):
@@ -399,7 +410,7 @@ def tsan_reports(text):
         parts = re.split(r"\n  (?=Previous |Location|Thread T|Mutex)", blk)
         frames = []
         for p in parts[:2]:
-            f = first_repo_frames(p, 1)
+            f = first_repo_frames(p, 1) or tsan_repo_frames(p, 1)
             frames.append(f[0] if f else None)
         if all(frames) and len(frames) == 2:
             out.append((m.group(1).strip(), tuple(sorted(frames)), blk[:2500]))
